@@ -220,7 +220,7 @@ pub fn run(tier: &str) -> Run {
             run.extra.insert("frozen_grammar_equals_repo_dsl".into(), json!(same));
         }
     }
-    let space = build_space(&g, tier == "thorough");
+    let space = build_space(&g, crate::util::wide(tier));
     let res = par_map(space.len(), &|i| eval(&g, &space[i]), &|i| {
         println!("MACHINERY-ERROR: C04 case {} hangs: {}", i, space[i].label);
         std::process::exit(2);
